@@ -73,6 +73,19 @@ def private_helpers(f):
 
 def callee_names(f):
     out = [(bi, (t.get("resolved") or t.get("callee") or "")) for bi, t in f.calls()]
+    # the function's own closures (and closures inside them), at the block where the outermost closure is created
+    made = {}
+    for bi, si, st in f.stmts():
+        if st["k"] == "assign" and st["rv"]["k"] == "agg" and st["rv"].get("agg") == "closure" and st["rv"].get("closure"):
+            made[st["rv"]["closure"]] = bi
+    for g in f.prog.real_fns():
+        if g.kind == "Closure" and g.id.startswith(f.id + "::{closure"):
+            top = f.id + "::" + g.id[len(f.id) + 2:].split("::")[0]
+            at = made.get(top)
+            if at is None:
+                continue
+            for b2, t2 in g.calls():
+                out.append((at, (t2.get("resolved") or t2.get("callee") or "")))
     for bi, h in private_helpers(f):
         for b2, t2 in h.calls():
             out.append((bi, (t2.get("resolved") or t2.get("callee") or "")))
@@ -327,6 +340,24 @@ def static_known(run):
             m = re.search(r"@(\w+)\.(\d+)", d)
             if m:
                 rec[t["dest"]["l"]] = (m.group(1), m.group(2), bi)
+    def all_children_call(t):
+        """`children.iter().all(|e| e.is_value_statically_known(provider))`: the answer for the whole child vector"""
+        if not (t.get("callee") or "").endswith("iter::Iterator::all") or len(t["args"]) < 2:
+            return None
+        from mir import closure_of_origin
+        from rules_sym import deep as _dp
+        g = prog.fn(closure_of_origin(f.origin_op(t["args"][1])) or "")
+        if g is None:
+            return None
+        inner = [t2 for _, t2 in g.calls() if (t2.get("resolved") or "") == f.id]
+        if len(inner) != 1 or inner[0]["dest"]["l"] != 0 or inner[0]["dest"]["p"] or _dp(g, inner[0]["args"][0], 3) not in ("P2", "*P2"):
+            return None
+        m_ = re.search(r"@(\w+)\.(\d+)", desc_through_iter(f, t["args"][0]))
+        return (m_.group(1), m_.group(2)) if m_ else None
+    for bi, t in f.calls():
+        ac = all_children_call(t)
+        if ac and not t["dest"]["p"]:
+            rec[t["dest"]["l"]] = (ac[0], ac[1], bi)
     prov = set()   # dest locals of provider / builtin queries
     for bi, t in f.calls():
         if not t["dest"]["p"] and f.local_ty(t["dest"]["l"]) == "bool" and t["dest"]["l"] not in rec:
@@ -378,6 +409,8 @@ def static_known(run):
                         d = desc_through_iter(f, t["args"][0])
                         m = re.search(r"@(\w+)\.(\d+)", d)
                         val = ("child", m.group(2)) if m else ("other", "recursive")
+                    elif all_children_call(t):
+                        val = ("child", all_children_call(t)[1])
                     else:
                         val = ("provider",)
                 return [(t["target"], (conf, val))]
@@ -779,7 +812,20 @@ def sk_provider(run):
                     idx = st["rv"]["fields"].index(fld)
                     if const_int(st["rv"]["ops"][idx]) != 0:
                         writers.add(f.id)
+        def _callers(w_):
+            cs = set()
+            for g_ in prog.real_fns():
+                for b2, t2 in g_.calls():
+                    if (t2.get("resolved") or "") == w_:
+                        cs.add(g_.raw.get("root") or g_.id)
+            return cs
         for w in sorted(writers):
+            if w not in fns:
+                # a step of an audited writer factored into a helper of the same module that only audited writers call
+                cs = _callers(w)
+                if cs and cs <= set(fns) and all(c_.rsplit("::", 1)[0] == w.rsplit("::", 1)[0] for c_ in cs):
+                    run.ok(R, "SK|flag-writer|%s|%s" % (fld, w), prog.fn(w).loc(), "%s sets %s on behalf of its only caller(s) %s (audited)" % (w, fld, sorted(cs)))
+                    continue
             run.check(w in fns, R, "SK|flag-writer|%s|%s" % (fld, w), prog.fn(w).loc(), "%s sets %s (audited)" % (w, fld),
                       "%s sets `%s` but is not an audited writer: the flag must come from the static analysis of the item's expression" % (w, fld))
 
